@@ -78,7 +78,7 @@ Definition mtx_eqb (x y : mtx) : bool :=
 (** ** Scripts *)
 Inductive cmd :=
 | CWake (w : Z) | CDropW (w : Z) | CSend (c m : Z) | CClosed (c : Z)          (* any thread *)
-| CNew (w : Z) | CFill (n : Z) | CPoll | CPollIf | CSpawn | CJoin               (* main *)
+| CNew (w : Z) | CFill (n : Z) | CPoll | CPollIf | CSpawn | CJoin | CWaitIdle   (* main *)
 | CCNew (c : Z) | CCDrop (c : Z) | CPNew (p : Z) | CPSend (p m : Z) | CPDrop (p : Z)
 | CRecv | CLSend (m : Z) | CCancel | CPanic.                                     (* piped worker *)
 
@@ -119,7 +119,8 @@ Inductive instr :=
 | ICvReacq (p : Z)
 | INotify (p : Z)
 | IYieldH (h : hkind) (del : bool)    (* a plain handler closure of the harness (its own yield point) *)
-| IJoin.
+| IJoin
+| IIdle.                              (* harness: wait until no other thread can run *)
 
 (** ** Events *)
 Inductive aop := FetchOr | Swap.
@@ -136,6 +137,7 @@ Inductive wevent :=
 | EFwdRecv (p m : Z)
 | ETerm (p : Z) (panicked : bool)
 | EJoin
+| EIdle
 | EExit                                     (* the thread has finished (logged in its last step) *)
 | EPub (h : hkind) (ok : bool)            (* ghost: publication check at a handler call *)
 | EDel (bit : Z) (h : hkind)              (* ghost: [del] removed the handler of [h] from slot [bit] *)
@@ -446,12 +448,27 @@ Definition finished (st : wstate) (u : tid) : bool :=
   tstarted x && isnone (tcur x) &&
   match tcont x, tscript x, tfinal x with [], [], [] => true | _, _, _ => false end.
 
-Definition instr_enabled (st : wstate) (t : tid) (i : instr) : bool :=
+Definition instr_enabled0 (st : wstate) (t : tid) (i : instr) : bool :=
   match i with
   | ILock m _ => isnone (owner st m)
   | ICvReacq p => negb (twaiting (th st t)) && isnone (owner st (MPq p))
   | IJoin => forallb (fun u => Nat.eqb u t || finished st u) (seq 0 (nthr st))
   | _ => true
+  end.
+
+Definition enabled0 (st : wstate) (t : tid) : bool :=
+  (t <? nthr st)%nat &&
+  let x := th st t in
+  if negb (tstarted x) then true
+  else match tcont x with
+       | i :: _ => instr_enabled0 st t i
+       | [] => match tscript x with [] => false | _ => true end
+       end.
+
+Definition instr_enabled (st : wstate) (t : tid) (i : instr) : bool :=
+  match i with
+  | IIdle => forallb (fun u => Nat.eqb u t || negb (enabled0 st u)) (seq 0 (nthr st))
+  | _ => instr_enabled0 st t i
   end.
 
 Definition enabled (st : wstate) (t : tid) : bool :=
@@ -699,6 +716,8 @@ Definition begin_cmd (st : wstate) (t : tid) (c : cmd) : wstate * list wevent * 
       else (spawn_thread st t (-1) [], [], Some RUnit)
   | CJoin =>
       if negb (is_main t) then bad else (set_cont st t [IJoin], [], None)
+  | CWaitIdle =>
+      if negb (is_main t) then bad else (set_cont st t [IIdle], [], None)
   | CCNew c =>
       if negb (is_main t) || cexists (chs st c) then bad
       else match wh_add st (HChan c) with
@@ -794,6 +813,7 @@ Definition exec_instr (st : wstate) (t : tid) (i : instr) (r : list instr) : wst
   | IJoin =>
       let all := fold_left (fun c u => vjoin c (tclk (th st u))) (seq 0 (nthr st)) (tclk (th st t)) in
       (set_cont (upd_th st t (set_tclk (th st t) all)) t r, [EJoin])
+  | IIdle => (set_cont st t r, [EIdle])
   | IBms [] | ILeaves _ [] | IRun | IHandlers _ | IDels _ =>
       (st, [EErr])          (* never at the head of a normalised continuation; the normalisation that follows handles it *)
   end.
